@@ -210,6 +210,24 @@ def data_and_procnames():
                 except Exception as e:  # noqa
                     kind, what = classify(e, src=src)
                     res.append(ob("programs/%s,deps=%d" % (name, deps), kind != "internal", "converted or documented refusal", what or kind, known_hits=[what] if kind == "known" else []))
+        refusals = {"two ON BRK": "10 ON BRK GOTO 10\n20 ON BRK GOTO 10\n", "two ON ERR": "10 ON ERR GOTO 10\n20 ON ERR GOTO 20\n", "undefined target": "10 GOTO 99\n",
+                    "two undefined targets": "10 ON A GOTO 98,99\n", "label too large": "40000 A=1\n", "three ON BRK nested": "10 IF A THEN ON BRK GOTO 10 ELSE ON BRK GOTO 10\n20 ON BRK GOTO 10\n"}
+        for name, src in refusals.items():
+            for filt in (False, True):
+                try:
+                    convert(src, filter_unused_linenum=filt)
+                    res.append(ob("refusal/%s,filter=%d" % (name, filt), False, "a documented refusal", "converted"))
+                except Exception as e:  # noqa
+                    kind, what = classify(e, src=src)
+                    res.append(ob("refusal/%s,filter=%d" % (name, filt), kind == "documented", "a documented refusal", what or type(e).__name__))
+        # a procedure name that is also a runtime procedure the program calls (the call graph gets a cycle)
+        for nm, src in (("ecb_cls", "10 CLS\n"), ("inkey", "10 A$=INKEY$\n"), ("ecb_str", "10 PRINT 1\n"), ("_ecb_start", "10 A=1\n")):
+            try:
+                convert(src, output_dependencies=True, procname=nm)
+                res.append(ob("procname/%r (also a runtime procedure)" % nm, True, "converted", "converted"))
+            except Exception as e:  # noqa
+                kind, what = classify(e, procname=nm)
+                res.append(ob("procname/%r (also a runtime procedure)" % nm, kind == "documented", "converted or documented refusal", what or kind))
         for nm in ["p", "A1", "3d", "2048", "_x", "a_b", "a-b", "-", "-x", "x" * 40, "a.b", "my prog", ""]:
             try:
                 convert("10 A=1\n", output_dependencies=True, procname=nm)
